@@ -711,3 +711,181 @@ func ruleShortcutDirection(c *Ctx, rule string) {
 		c.Ob(rule, "xreflect/shortcuts", nil, false, fmt.Sprintf("%d delegated type questions found in xtype.ConvertibleTo / AssignableTo / Implements, at least 3 expected", n))
 	}
 }
+
+// ruleConstantAccessorGuard (A2u): reflect's Int / Uint / Float / Complex / Bool accessors panic on a Value of
+// another category. An accessor applied directly to the Value of a constant (`xr.ValueOf(e.Value).Uint()`) is
+// accepted only where the category is established: in an arm of a switch over a Kind() / Category() expression, in
+// the body of an `if` whose condition asks for the kind or category, or after an early exit on such a test.
+func ruleConstantAccessorGuard(c *Ctx, rule string, short string) {
+	pk := c.P.Pkg(short)
+	if pk == nil {
+		c.Fatal("package %s not loaded", short)
+		return
+	}
+	info := pk.TypesInfo
+	accessors := map[string]bool{"Int": true, "Uint": true, "Float": true, "Complex": true, "Bool": true}
+	asksKind := func(e ast.Node) bool {
+		if e == nil {
+			return false
+		}
+		found := false
+		ast.Inspect(e, func(m ast.Node) bool {
+			if call, ok := m.(*ast.CallExpr); ok {
+				switch f := unparen(call.Fun).(type) {
+				case *ast.SelectorExpr:
+					switch f.Sel.Name {
+					case "Kind", "Category", "IsCategory", "KindToCategory":
+						found = true
+					}
+				case *ast.Ident:
+					switch f.Name {
+					case "Category", "IsCategory":
+						found = true
+					}
+				}
+			}
+			return true
+		})
+		return found
+	}
+	total, guarded := 0, 0
+	for _, fd := range c.P.FuncsOf(short) {
+		if fd.Body == nil {
+			continue
+		}
+		var di *defIndex
+		parent := map[ast.Node]ast.Node{}
+		var stack []ast.Node
+		built := false
+		build := func() {
+			if built {
+				return
+			}
+			built = true
+			ast.Inspect(fd.Body, func(m ast.Node) bool {
+				if m == nil {
+					stack = stack[:len(stack)-1]
+					return true
+				}
+				if len(stack) > 0 {
+					parent[m] = stack[len(stack)-1]
+				}
+				stack = append(stack, m)
+				return true
+			})
+		}
+		k := 0
+		inspectCalls(fd.Body, func(call *ast.CallExpr) {
+			se, ok := unparen(call.Fun).(*ast.SelectorExpr)
+			if !ok || !accessors[se.Sel.Name] || len(call.Args) != 0 {
+				return
+			}
+			inner, ok := unparen(se.X).(*ast.CallExpr)
+			if !ok || len(inner.Args) != 1 {
+				return
+			}
+			switch funcFullName(calleeOf(info, inner)) {
+			case "xreflect.ValueOf", "reflect.ValueOf":
+			default:
+				return
+			}
+			vs, ok := unparen(inner.Args[0]).(*ast.SelectorExpr)
+			if !ok || vs.Sel.Name != "Value" || !isNamedType(info.TypeOf(vs.X), "fast", "Expr") {
+				return
+			}
+			total++
+			build()
+			if di == nil {
+				di = buildDefIndex(info, fd)
+			}
+			// the test must be about this constant: it mentions the expression the Value is taken from, or a
+			// local computed from it (yet := ye.DefaultType())
+			rootID, _ := unparen(vs.X).(*ast.Ident)
+			var rootObj types.Object
+			if rootID != nil {
+				rootObj = info.Uses[rootID]
+			}
+			var about func(e ast.Node, depth int) bool
+			about = func(e ast.Node, depth int) bool {
+				if e == nil || rootObj == nil {
+					return rootObj == nil
+				}
+				found := false
+				ast.Inspect(e, func(m ast.Node) bool {
+					id, ok := m.(*ast.Ident)
+					if !ok || found {
+						return !found
+					}
+					o := info.Uses[id]
+					if o == rootObj {
+						found = true
+					} else if depth < 3 && o != nil {
+						for _, d := range di.defs[o] {
+							if d != nil && about(d, depth+1) {
+								found = true
+							}
+						}
+					}
+					return !found
+				})
+				return found
+			}
+			// operands: the parameters of type *Expr. A test about another operand says nothing about this one;
+			// when the constant is not itself an operand parameter (call arguments converted to the callee's
+			// parameter types) any kind test on the way is accepted
+			isOperand := false
+			for _, f := range fd.Type.Params.List {
+				for _, nm := range f.Names {
+					if info.Defs[nm] == rootObj && rootObj != nil {
+						isOperand = true
+					}
+				}
+			}
+			asksKindOf := func(e ast.Node) bool {
+				if !asksKind(e) {
+					return false
+				}
+				return !isOperand || about(e, 0)
+			}
+			ok2 := false
+			for p := ast.Node(call); p != nil && !ok2; p = parent[p] {
+				switch x := parent[p].(type) {
+				case *ast.CaseClause:
+					if sw, ok := parent[parent[x]].(*ast.SwitchStmt); ok {
+						tag := ast.Node(sw.Tag)
+						if id, isId := sw.Tag.(*ast.Ident); isId {
+							if d := di.single(info.Uses[id]); d != nil {
+								tag = d
+							}
+						}
+						if sw.Tag != nil && (asksKindOf(tag) || (asksKind(tag) && about(sw.Tag, 0))) {
+							ok2 = true
+						}
+					}
+				case *ast.IfStmt:
+					if p == ast.Node(x.Body) && asksKindOf(x.Cond) {
+						ok2 = true
+					}
+				case *ast.BlockStmt:
+					for _, st := range x.List {
+						if st == p {
+							break
+						}
+						if ifs, ok := st.(*ast.IfStmt); ok && asksKindOf(ifs.Cond) && len(ifs.Body.List) > 0 {
+							if _, isRet := ifs.Body.List[len(ifs.Body.List)-1].(*ast.ReturnStmt); isRet {
+								ok2 = true
+							}
+						}
+					}
+				}
+			}
+			if ok2 {
+				guarded++
+				return
+			}
+			k++
+			c.Ob(rule, fmt.Sprintf("%s/%s#%d", funcKey(pk, fd), se.Sel.Name, k), call, false, "the accessor "+se.Sel.Name+"() is applied to the Value of a constant whose category nothing on the way establishes: a constant of another category panics inside reflect ("+exprString(call)+")")
+		})
+	}
+	c.Ob(rule, short+"/guarded", nil, total >= 20, fmt.Sprintf("%d accessors applied directly to a constant's Value, %d of them under a kind or category test", total, guarded))
+}
